@@ -44,13 +44,14 @@ def run(ctx):
     rep.guarded("write_all-loop", H + "write_all", lambda: rule_write_all(facts, rep))
     rep.guarded("consumed-count", H + "write", lambda: rule_consumed(facts, rep))
     rep.guarded("errors", H, lambda: rule_errors(facts, rep))
+    rep.guarded("vectored", H, lambda: rule_vectored(facts, rep))
     # the colours handed to the console are those of the extracted runs: the extractor's SGR rules are part of this property's
     # chain (same rules as C07, evaluated here as well)
     from rules import links
     links.extractor(facts, rep)
     links.parser_under_sgr(facts, rep)
     links.palette_tables(facts, rep)     # cap_wincon_color narrows Ansi256 through Ansi256Color::into_ansi
-    for r, n in (("cap-table", 3), ("wiring", 10), ("write_all-loop", 5), ("consumed-count", 1), ("errors", 3), ("W4", 5)):
+    for r, n in (("cap-table", 3), ("wiring", 10), ("write_all-loop", 5), ("consumed-count", 1), ("errors", 3), ("vectored", 1), ("W4", 5)):
         rep.floor(r, n)
 
 
@@ -258,3 +259,13 @@ def rule_errors(facts, rep):
     e = ac.single_expr(n["hir"])
     okn = e.get("k") == "struct" and hir.is_local({x["name"]: x["e"] for x in e["fields"]}.get("raw"), "raw")
     rep.check(okn, "errors", n["path"], "wraps-raw-with-fresh-state", "", loc(n))
+
+
+def rule_vectored(facts, rep):
+    """write_vectored hands over one of the caller's buffers through `write` and returns that call's result: a count that stands
+    for anything else (several buffers written, one reported) makes the caller submit text again that the console already got."""
+    v = facts.body("verif_harness", "<verif_harness::wincon::WinconStream<S> as std::io::Write>::write_vectored")
+    rep.fn(v["path"])
+    ok, why = stripstream._forwards_one_buffer(v, method="<verif_harness::wincon::WinconStream<S> as std::io::Write>::write", free_fn=H + "write")
+    rep.check(ok, "vectored", v["path"], "forwards-one-buffer",
+              f"write_vectored = self.write(first non-empty buffer, or an empty slice), its result returned as it is; {why}", loc(v))
